@@ -280,13 +280,13 @@ class Walker(object):
             if self.exclude is not None and fs.match(self.exclude, info.name):
                 return False
             if self.exclude_glob is not None and fs.match_glob(
-                self.exclude_glob, dir_path + "/" + info.name
+                self.exclude_glob, combine(dir_path, info.name)
             ):
                 return False
             if self.filter is not None and not fs.match(self.filter, info.name):
                 return False
             if self.filter_glob is not None and not fs.match_glob(
-                self.filter_glob, dir_path + "/" + info.name, accept_prefix=True
+                self.filter_glob, combine(dir_path, info.name), accept_prefix=True
             ):
                 return False
         return self.check_file(fs, info)
